@@ -66,6 +66,25 @@ def run(ctx):
                       gap_penalty=rng.choice([4, 12]))
         full = dict(ntrim=3, ctrim=2, dist_weight=3, gap_penalty=12)
         full.update(kw)
+        if t % 2 == 1:
+            # short CDR3s: length <= ntrim + ctrim (nothing is left after trimming; the search string is '') and lengths just above
+            # (a 1..3 letter core, within max_edits of '' and of each other).  They stay rows of the table like any other: the
+            # reported (i, j) are row positions of the WHOLE table.  Placed first / in the middle / last, alone or several.
+            flank = full['ntrim'] + full['ctrim']
+            nshort = rng.choice([1, 1, 2, 3])
+            places = rng.choice([['first'], ['middle'], ['last'], ['first', 'middle', 'last'], ['any']])
+            for s in range(nshort):
+                def short():
+                    L = rng.choice([rng.randint(1, flank), flank, flank, rng.randint(flank + 1, flank + 3)])
+                    return ('CAS' + ''.join(rng.choice(AA) for _ in range(L)))[:max(L - 1, 0)] + 'F'
+                # which chain gets the short CDR3: the candidate chain, the other one, or both
+                w = rng.choice(['a', 'b', 'ab', 'ab'])
+                ra = rng.choice(rows)
+                row = (ra[0], short() if 'a' in w else ra[1], ra[2], short() if 'b' in w else ra[3])
+                where = places[s % len(places)]
+                pos = dict(first=0, last=len(rows), middle=len(rows) // 2).get(where, rng.randint(0, len(rows)))
+                rows.insert(pos, row)
+                ctx.count('short_cdr3_' + where)
         maxt = rng.choice([0, 6, 12, 20, 40, 90, 500])
         cases.append((rows, chain, k, trimmed, kw, full, maxt))
     reqs = [('api_tcrdist_nn', [dict(alpha=0, beta=1, both=2)[c], k, tr, mt, f['ntrim'], f['ctrim'], f['dist_weight'], f['gap_penalty'],
